@@ -73,7 +73,8 @@ func runHTTPAuth(cfg *hx.RunCfg) error {
 			"Definition NSYS_SUBDOMAIN_REFUSED := Eval vm_compute in count_if is_sys_subdomain_refused cases.\nPrint NSYS_SUBDOMAIN_REFUSED.\n" +
 			"Definition NSYS_SUBDOMAIN_FORWARDED := Eval vm_compute in count_if is_sys_subdomain_forwarded cases.\nPrint NSYS_SUBDOMAIN_FORWARDED.\n" +
 			"Definition NHGRP := Eval vm_compute in count_if is_hgrp_case cases.\nPrint NHGRP.\n" +
-			"Definition NHGRP_FINDING_FC07C := Eval vm_compute in count_if is_hgrp_finding cases.\nPrint NHGRP_FINDING_FC07C.\n" +
+			"Definition NHGRP_REFUSED_JOIN := Eval vm_compute in count_if is_hgrp_refused_join cases.\nPrint NHGRP_REFUSED_JOIN.\n" +
+			"Definition NHGRP_PROTECTED_DELIVERY := Eval vm_compute in count_if is_hgrp_protected_delivery cases.\nPrint NHGRP_PROTECTED_DELIVERY.\n" +
 			"Definition NWEB_UNAUTH := Eval vm_compute in count_if is_web_unauth cases.\nPrint NWEB_UNAUTH.\n" +
 			"Definition NWEB_PUBLIC := Eval vm_compute in count_if is_web_public cases.\nPrint NWEB_PUBLIC.\n",
 	}
